@@ -753,6 +753,32 @@ func checkNoWriteUnderRangeIterator(c *Ctx, rule string) {
 		})
 		return hit
 	}
+	// does the scan helper run its callback while its iterator is open?  (a helper that reads a bounded chunk, closes
+	// the iterator and only then applies the callback keeps the contract whatever the callback does)
+	openDuringCallback := false
+	if len(tr.Params) > 0 {
+		fnParam := tr.Params[len(tr.Params)-1]
+		allInstrs(tr, func(in ssa.Instruction) {
+			cc := callCommon(in)
+			if cc == nil || !cc.IsInvoke() || (cc.Method.Name() != "Iterator" && cc.Method.Name() != "ReverseIterator") {
+				return
+			}
+			itv := extractOf(in.(ssa.Value), 0)
+			searchFrom([]point{after(in)}, func(x ssa.Instruction) bool {
+				xc := callCommon(x)
+				if xc == nil {
+					return false
+				}
+				if _, isDefer := x.(*ssa.Defer); !isDefer && xc.IsInvoke() && xc.Method.Name() == "Close" && itv != nil && stripTrivial(xc.Value) == ssa.Value(itv) {
+					return true // closed on this path
+				}
+				if p, isP := xc.Value.(*ssa.Parameter); isP && p == fnParam {
+					openDuringCallback = true
+				}
+				return false
+			})
+		})
+	}
 	n := 0
 	for _, in := range callsIn(dvf, predStatic(tr)) {
 		cc := callCommon(in)
@@ -771,11 +797,14 @@ func checkNoWriteUnderRangeIterator(c *Ctx, rule string) {
 		}
 		n++
 		hit := mutates(cb, 0, map[*ssa.Function]bool{})
+		if !openDuringCallback {
+			hit = nil
+		}
 		pos := l.ipos(in)
 		if hit != nil {
 			pos = l.ipos(hit)
 		}
-		c.decide(rule, l.fname(cb)+" mutates the batch under the open range iterator", pos, hit == nil, "the callback only collects",
+		c.decide(rule, l.fname(cb)+" mutates the batch under the open range iterator", pos, hit == nil, "the callback does not mutate the batch, or the scan helper applies it only after closing its iterator",
 			"the rollback queues its deletions from inside the callback of a range scan; the batch wrapper writes the batch to the store when it exceeds the flush threshold — while the scan's iterator is still open, which the store contract forbids (`no writes within a domain while an iterator exists over it`). MemDB enforces it with its lock: the write blocks on the iterator, the iterator on the callback, and LoadVersionForOverwriting / DeleteVersionsFrom never return once the erased versions exceed the threshold")
 	}
 	if n < 1 {
